@@ -2,6 +2,5 @@ SPECIFICATION Spec
 CONSTANTS
   MaxDepth = 3
   Mint = FALSE
-CONSTANT U <- MCU
 INVARIANTS TypeOK NoMinting DeadStaysDead
 CHECK_DEADLOCK FALSE
